@@ -136,6 +136,12 @@ func (a *engineAPI) ForkchoiceUpdatedV3(update engine.ForkchoiceStateV1, attrs *
 		time.Sleep(800 * time.Millisecond)
 	}
 	resp := engine.ForkChoiceResponse{PayloadStatus: engine.PayloadStatusV1{Status: engine.VALID}}
+	switch f { // a non-VALID status on an answer that nevertheless carries a payload id
+	case "invalid-with-id":
+		resp.PayloadStatus.Status = engine.INVALID
+	case "syncing-with-id":
+		resp.PayloadStatus.Status = engine.SYNCING
+	}
 	if attrs == nil {
 		return resp, nil
 	}
@@ -522,6 +528,18 @@ func (w *World) lastCommit() abci.CommitInfo {
 }
 
 func (w *World) Prepare(mempool [][]byte) ([][]byte, string) {
+	// a proposer that never returns from PrepareProposal is a halted node: report it as such instead of
+	// hanging the harness
+	done := make(chan struct{})
+	defer close(done)
+	go func(h int64, n int) {
+		select {
+		case <-done:
+		case <-time.After(25 * time.Second):
+			markCurrent(map[string]any{"kind": "hang", "mutation": "PrepareProposal-did-not-return-within-25s", "height": h, "mempool_txs": n})
+			os.Exit(3)
+		}
+	}(w.Height, len(mempool))
 	resp, err := w.App.PrepareProposal(&abci.RequestPrepareProposal{MaxTxBytes: 1 << 21, Txs: mempool, Height: w.Height, Time: w.Now,
 		ProposerAddress: w.ValAddr, LocalLastCommit: abci.ExtendedCommitInfo{}})
 	if err != nil {
